@@ -69,8 +69,11 @@ enum Rel {
     /// the environment is as present as one on the command line when `o`'s conditional defaults
     /// are decided, whatever the declaration order
     OtherFromEnv,
+    /// `o` and `other` are members of one `multiple` group: a group one of whose members was typed
+    /// reports the command line as its source, whatever else reached it afterwards
+    GroupOWithOther,
 }
-const RELS: [Rel; 16] = [
+const RELS: [Rel; 17] = [
     Rel::None,
     Rel::OConflictsOther,
     Rel::OtherConflictsO,
@@ -87,6 +90,7 @@ const RELS: [Rel; 16] = [
     Rel::ZRequiredIfOEqualsDefaultIgnoringCase,
     Rel::OtherAppend,
     Rel::OtherFromEnv,
+    Rel::GroupOWithOther,
 ];
 
 #[derive(Clone, Debug)]
@@ -193,6 +197,7 @@ impl Cfg {
             }
             Rel::OtherAppend => other.action = Some(Act::Append),
             Rel::OtherFromEnv => other.env = Some("CLAPMC_X".into()),
+            Rel::GroupOWithOther => c.groups.push(GroupSpec { id: "g".into(), args: vec!["o".into(), "other".into()], multiple: true, ..Default::default() }),
             Rel::None => {}
         }
         c.args.push(o);
@@ -431,6 +436,12 @@ fn judge(c: &Cfg, spec: &CmdSpec, cmd: &clap::Command, seq: &[Tok], h: &mut Hist
                     bad.push(("defaults counted as 'arguments present' for arg_required_else_help".into(), String::new()));
                 }
                 _ => {}
+            }
+            if c.rel == Rel::GroupOWithOther && (o_on_cli || other_on_cli) {
+                let gs = ob.args.get("g").and_then(|a| a.source);
+                if gs != Some(Src::Cli) {
+                    bad.push(("a group with a member given on the command line reports another source".into(), format!("group g: {:?} (o on the line: {}, other on the line: {}, o's environment variable set: {})", gs, o_on_cli, other_on_cli, env_set)));
+                }
             }
             // the other argument keeps its command-line value unless a later o on the line overrides it
             if other_on_cli && seq.iter().filter(|t| matches!(t, Tok::OtherX | Tok::OtherY)).count() == 1 && (c.rel != Rel::IgnoreErrors || want.is_some()) {
